@@ -88,6 +88,7 @@ def r20_4(prog):
             ivars = {x[1] for x in walk(e["index"]["tree"]) if x[0] == "var"}
             key = "%s[%s]#%d" % (bt[1], e["index"].get("text", "?")[:20], n)
             ok = None
+            slack = None
             for d in f.dominators().get(b.id, ()):
                 tb = f.blocks[d]
                 if not tb.term or "cond" not in tb.term or len(tb.succ) < 2:
@@ -103,10 +104,27 @@ def r20_4(prog):
                 elif not (lv & ivars):
                     continue
                 bounded_idx = 0 if op in ("<", "<=") else 1
+                # the bound, if it can be evaluated (a constant, or sizeof(table)/sizeof(table[0]) = the dimension), must
+                # keep the index at most dimension - 1
+                other = c[3] if (lv & ivars) else c[2]
+                dim = int(_re.search(r"\[(\d+)\]$", bt[3]).group(1))
+                cval = const_of(other)
+                ot = strip_casts(other)
+                if cval is None and isinstance(ot, list) and ot and ot[0] == "bin" and ot[1] == "/" and all(
+                        isinstance(strip_casts(x), list) and strip_casts(x)[0] == "sizeof" for x in (ot[2], ot[3])) and bt[1] in str(strip_casts(ot[2])[1]):
+                    cval = dim
+                if cval is not None:
+                    limit = cval - 1 if op in ("<", ">=") else cval          # largest index the bounded edge lets through
+                    if limit > dim - 1:
+                        slack = (tb.term.get("line"), limit, dim)
+                        continue
                 if f.edge_dominates(d, bounded_idx, b.id):
                     ok = tb.term.get("line")
             if ok is not None:
                 r.ok(f, key, "reached only through the bounded edge of the comparison at line %s" % ok, e["line"])
+            elif slack is not None:
+                r.bad(f, key, "`%s` (%s) is indexed with `%s`; the comparison at line %s lets the index reach %d, the table ends at %d" % (
+                    bt[1], bt[3], e["index"].get("text"), slack[0], slack[1], slack[2] - 1), e["line"])
             else:
                 r.bad(f, key, "`%s` (%s) is indexed with `%s` and no upper-bound comparison of the index guards the access: a tag number or "
                               "similar value from the input reads past the table" % (bt[1], bt[3], e["index"].get("text")), e["line"])
